@@ -28,7 +28,7 @@ try:
     ch_rc, ch_out = demo()
     res = {}
     for c in checks:
-        k = subprocess.run(["/verif/check", c], env=dict(os.environ, CATII_REPO=tmp), capture_output=True, text=True, timeout=3600)
+        k = subprocess.run(["/verif/check", c], env=dict(os.environ, CATII_REPO=tmp, CV_EVIDENCE_DIR=tmp + "/evidence", CV_REPLAY_DIR=tmp + "/replays"), capture_output=True, text=True, timeout=3600)
         obs = sorted({l.split("obligation:")[1].strip() for l in (k.stdout + k.stderr).splitlines() if "obligation:" in l})
         res[c] = {"exit": k.returncode, "violations": (k.stdout).count("VIOLATION property="), "obligations": obs[:6]}
     print(json.dumps({"seed": os.path.basename(src), "property": meta["property"], "demo_unchanged": base_rc, "demo_changed": ch_rc, "checks": res}))
